@@ -2,7 +2,7 @@
 # accept_mutant.sh <Cxx> [suffix]: confirm a sub-agent's seeded change in its scratch worktree, then file it under /verif/seeded/.
 set -u
 P="$1"; SUF="${2:-1}"
-WT=/tmp/tucan-mut-$P
+WT=${MUTROOT:-/tmp/tucan-mut}-$P
 cd $WT || exit 2
 [ -f _mutant/patch.diff ] || { echo "no patch"; exit 2; }
 echo "== tests with change"; T=$(PYTHONPATH=$WT /venv/bin/python -m pytest -q -p no:cacheprovider --timeout=900 -x -q 2>&1 | tail -1); echo "$T"
